@@ -11,7 +11,15 @@ def api(prog, acqs, nmax, ring, timeout=1200, solver="cadical", name=None, exclu
 
 def harnesses(tier, findings):
     if tier == "probe":
-        return [api(1, 1, 1, 3, 900), api(1, 1, 2, 3, 900), api(1, 2, 1, 3, 900), api(1, 2, 2, 3, 900)]
+        return [api(1, 1, 1, 3, 900, name="p_all_fixed", excludes=["FIX_N=1", "FIX_EARLY=1", "FIX_ABORT=0", "CL_ROUNDS=0"]),
+                api(1, 1, 1, 3, 900, name="p_fixed_cl1", excludes=["FIX_N=1", "FIX_EARLY=1", "FIX_ABORT=0", "CL_ROUNDS=1"]),
+                api(1, 1, 1, 3, 900, name="p_sym_abort", excludes=["FIX_N=1", "FIX_EARLY=1", "CL_ROUNDS=0"]),
+                api(1, 1, 2, 3, 900, name="p_sym_N", excludes=["FIX_EARLY=1", "FIX_ABORT=0", "CL_ROUNDS=0"])]
+    if tier == "probe2":
+        return [api(1, 2, 2, 3, 900, name="q_full", excludes=["EXCL_C06_FIRST_MAP=1"]),
+                api(1, 2, 2, 3, 900, name="q_fixN", excludes=["EXCL_C06_FIRST_MAP=1", "FIX_N=2"]),
+                api(1, 2, 1, 3, 900, name="q_fixN1_cl1", excludes=["EXCL_C06_FIRST_MAP=1", "FIX_N=1", "CL_ROUNDS=1"]),
+                api(1, 1, 2, 3, 900, name="q_A1", excludes=["EXCL_C06_FIRST_MAP=1"])]
     if tier == "quick":
         return [api(1, 2, 2, 3)]
     return [api(1, 2, 2, 3), api(1, 2, 3, 4, 3000), api(1, 3, 2, 3, 3000)]
